@@ -176,6 +176,11 @@ func (fi *FileInfo) MakeReader(opt *ReaderOptions) (*Reader, error) {
 		if err == nil {
 			return false
 		}
+		if IsReadError(err) {
+			// Only malformed-content errors are recoverable; a failure of
+			// the byte source must not be mistaken for a defect of the file.
+			return true
+		}
 		if opt.ErrorHandling == ErrorHandlingReport {
 			var e *MalformedFileError
 			if errors.As(err, &e) {
